@@ -190,6 +190,10 @@ class ModelMixin(ModelMixin2, ModelMixin3):
                 self.hook('elem-bool', st, node, elem=v)
                 s2 = st.copy()
                 self.stats['forks'] += 1
+                if e.origin[0] == 'first' and e.parent:
+                    # the construct is reported as a violation by itself (NO-ELEM-BOOL); to keep the number of
+                    # continuations finite the childless-but-present case is merged with the absent case
+                    s2.first[(e.parent, e.tag)] = 'ABSENT'
                 return [(True, st), (False, s2)]
             if isinstance(e, ListE):
                 return self.len_cmp(v.sym, '>', 0, st)
@@ -484,7 +488,7 @@ class ModelMixin(ModelMixin2, ModelMixin3):
     def child_presence(self, pe: ElemE, tag: str) -> bool:
         if not pe.schema:
             return False
-        ptag = pe.tag
+        ptag = pe.stag or pe.tag
         if (ptag, tag) in schema.REQUIRED:
             return True
         return False
@@ -492,7 +496,7 @@ class ModelMixin(ModelMixin2, ModelMixin3):
     def min_count(self, pe: ElemE, tag: str) -> int:
         if not pe.schema:
             return 0
-        return schema.MIN_COUNT.get((pe.tag, tag), 0)
+        return schema.MIN_COUNT.get((pe.stag or pe.tag, tag), 0)
 
     def elem_find(self, p: Ref, tag: str, st: State, node):
         pe: ElemE = st.get(p.sym)
@@ -547,12 +551,20 @@ class ModelMixin(ModelMixin2, ModelMixin3):
         if e.text is not None:
             return [(e.text, st)]
         tsym = self.text_sym(o.sym, st)
-        tag = e.tag
         mode = self.text_mode(e, st)
         if mode == 'str':
             return [(StrV(('text', S(o.sym)), tsym), st)]
+        memo = st.mon.get('sym:textnull') or {}
+        if o.sym in memo:
+            if memo[o.sym]:
+                return [(NoneV(('blank', S(o.sym))), st)]
+            return [(StrV(('text', S(o.sym)), tsym), st)]
         s2 = st.copy()
         self.stats['forks'] += 1
+        for s, val in ((st, False), (s2, True)):
+            m = dict(s.mon.get('sym:textnull') or {})
+            m[o.sym] = val
+            s.mon['sym:textnull'] = m
         return [(StrV(('text', S(o.sym)), tsym), st), (NoneV(('blank', S(o.sym))), s2)]
 
     def text_mode(self, e: ElemE, st):
@@ -598,12 +610,12 @@ class ModelMixin(ModelMixin2, ModelMixin3):
         self.hook('elem-store', st, node, elem=o, attr=name, value=val)
         if name == 'tag':
             if isinstance(val, Const):
-                st.put(o.sym, replace(e, tag=val.v))
+                st.put(o.sym, replace(e, tag=val.v, stag=e.stag or e.tag))
                 if e.parent:
                     for k in [k for k in st.first if k[0] == e.parent]:
                         del st.first[k]
             else:
-                st.put(o.sym, replace(e, tag=None))
+                st.put(o.sym, replace(e, tag=None, stag=e.stag or e.tag))
         elif name == 'text':
             st.put(o.sym, replace(e, text=val))
         return [(NoneV(), st)]
@@ -772,10 +784,10 @@ class ModelMixin(ModelMixin2, ModelMixin3):
             else:
                 # summarise: one entry per abstract key/value shape
                 gk = i
-                if isinstance(i, StrV):
+                if isinstance(i, (StrV, NoneV)):
                     gk = StrV(('dict-key',))
-                elif isinstance(i, NoneV):
-                    gk = NoneV()
+                if isinstance(val, Const) and isinstance(val.v, (int, float)) and not isinstance(val.v, bool):
+                    val = NumV()
                 items = d.items
                 if not any(k == gk and self._vk(v, st) == self._vk(val, st) for k, v in items):
                     items = items + ((gk, val),)
